@@ -4,7 +4,7 @@
 (* value predicted by the format's reference decoder.  Bytes 1..ExhLen      *)
 (* range over all 256 values, later bytes over the representative set Reps  *)
 (* (one per head class / payload class of the format).                      *)
-EXTENDS Naturals, Sequences, Json, TLC, C07Tokens, C07TokMsgpack, C07TokUbjson, C07TokBson
+EXTENDS Naturals, Sequences, Json, TLC, C07Tokens, C07TokMsgpack, C07TokUbjson, C07TokBson, C07RepCbor, C07RepMsgpack, C07RepUbjson, C07RepBson
 CONSTANTS Format, MaxLen, ExhLen, Reps, OnlyAccepted,
           TokMode      \* "bytes": one byte per step; "tok": one head/payload token per step (ExhLen steps over the full token set, then the small set)
 VARIABLES bs, n
@@ -22,7 +22,9 @@ AllToks == CASE Format = "cbor" -> CborTokens [] Format = "msgpack" -> MsgpackTo
 SmallToks == CASE Format = "cbor" -> CborSmallTokens [] Format = "msgpack" -> MsgpackSmallTokens [] Format = "ubjson" -> UbjsonSmallTokens [] Format = "bson" -> BsonSmallTokens
 Init == bs = <<>> /\ n = 0
 Next == /\ n < MaxLen /\ n' = n + 1
-        /\ IF TokMode = "tok" THEN \E t \in (IF n < ExhLen THEN AllToks ELSE SmallToks) : bs' = bs \o t
+        /\ IF TokMode = "rep" THEN (n = 0 /\ bs' \in (CASE Format = "cbor" -> CborRepInputs [] Format = "msgpack" -> MsgpackRepInputs
+                                                       [] Format = "ubjson" -> UbjsonRepInputs [] Format = "bson" -> BsonRepInputs))
+           ELSE IF TokMode = "tok" THEN \E t \in (IF n < ExhLen THEN AllToks ELSE SmallToks) : bs' = bs \o t
            ELSE \E x \in (IF n < ExhLen THEN 0..255 ELSE Reps) : bs' = Append(bs, x)
 
 R == Dec(bs)
